@@ -6,8 +6,9 @@ From Coq Require Import Lia.
 Open Scope list_scope.
 Open Scope N_scope.
 
-Ltac run_unfold := unfold run_handler; cbn [run_list run_op c_res c_s c_q c_r c_enable c_file c_started c_next_avail
-                                              with_s with_res with_locals at_ring bval_of fval_of cond_of].
+Ltac run_unfold := unfold run_handler, run_handler_num;
+                   cbn [run_list run_op c_res c_s c_q c_r c_enable c_file c_started c_next_avail c_num c_evidx
+                        with_s with_res with_locals with_evidx at_ring bval_of fval_of cond_of].
 
 Lemma ctl_set_vring_enable_eq s q e f : run_handler ctl_set_vring_enable s q e f = h_set_vring_enable s q e.
 Proof.
@@ -102,40 +103,49 @@ Proof.
   rewrite upd_upd. reflexivity.
 Qed.
 
-Lemma for_rings_disable (B : cenv -> cenv) :
+Lemma for_rings_flag (b : bool) (B : cenv -> cenv) :
   (forall e q r, c_res e = None ->
      c_res (B (at_ring e q r)) = None
-     /\ c_s (B (at_ring e q r)) = update_reg (put_ring (c_s e) q (with_ring r (r_ready r) false (r_kick r) (r_call r)))
-                                             (with_ring r (r_ready r) false (r_kick r) (r_call r)) q) ->
+     /\ c_s (B (at_ring e q r)) = update_reg (put_ring (c_s e) q (with_ring r (r_ready r) b (r_kick r) (r_call r)))
+                                             (with_ring r (r_ready r) b (r_kick r) (r_call r)) q) ->
   forall n q e, c_res e = None ->
-    c_s (for_rings B n q e) = enable_all (c_s e) n q false /\ c_res (for_rings B n q e) = None.
+    c_s (for_rings B n q e) = enable_all (c_s e) n q b /\ c_res (for_rings B n q e) = None.
 Proof.
   intros HB. induction n as [|n IH]; intros q e He; cbn [for_rings enable_all]; [split; [reflexivity|exact He]|].
   destruct (get_ring (c_s e) q) as [r|]; [|split; [reflexivity|exact He]].
   destruct (HB e q r He) as [H1 H2]. destruct (IH (q + 1) (B (at_ring e q r)) H1) as [H3 H4].
   rewrite H3, H4, H2. split; reflexivity.
 Qed.
+Definition for_rings_disable := for_rings_flag false.
 
+Lemma flag_body_ok (v : bval) (b : bool) e q r :
+  (forall e', bval_of e' v = b) ->
+  c_res e = None ->
+  c_res (run_list run_init [OSetEnabled v; OUpdateReg] (at_ring e q r)) = None
+  /\ c_s (run_list run_init [OSetEnabled v; OUpdateReg] (at_ring e q r))
+     = update_reg (put_ring (c_s e) q (with_ring r (r_ready r) b (r_kick r) (r_call r)))
+                  (with_ring r (r_ready r) b (r_kick r) (r_call r)) q.
+Proof.
+  intros Hv He. repeat (progress (cbn [run_list run_op with_s at_ring c_res c_s c_q c_r]; rewrite ?He, ?Hv)). split; reflexivity.
+Qed.
 Lemma disable_body_ok e q r :
   c_res e = None ->
   c_res (run_list run_init [OSetEnabled BFalse; OUpdateReg] (at_ring e q r)) = None
   /\ c_s (run_list run_init [OSetEnabled BFalse; OUpdateReg] (at_ring e q r))
      = update_reg (put_ring (c_s e) q (with_ring r (r_ready r) false (r_kick r) (r_call r)))
                   (with_ring r (r_ready r) false (r_kick r) (r_call r)) q.
-Proof.
-  intros He. repeat (progress (cbn [run_list run_op with_s at_ring c_res c_s c_q c_r bval_of]; rewrite ?He)). split; reflexivity.
-Qed.
+Proof. apply flag_body_ok. reflexivity. Qed.
 
 Lemma ctl_reset_device_eq s q e f : run_handler ctl_reset_device s q e f = h_reset_device s.
 Proof.
-  unfold ctl_reset_device, h_reset_device, run_handler. cbn [run_list].
+  unfold ctl_reset_device, h_reset_device, run_handler, run_handler_num. cbn [run_list].
   cbn [run_op c_res c_s].
   match goal with |- context [for_rings ?B ?n 0 ?E] =>
     change B with (fun e' => run_list run_init [OSetEnabled BFalse; OUpdateReg] e');
     destruct (for_rings_disable (fun e' => run_list run_init [OSetEnabled BFalse; OUpdateReg] e') disable_body_ok n 0 E eq_refl) as [Hs Hr];
     set (E' := for_rings _ n 0 E) in *
   end.
-  cbn [c_s] in Hs. repeat (progress (cbn [run_list run_op c_res with_s with_res c_s c_r]; rewrite ?Hr)).
+  cbn [c_s] in Hs. repeat (progress (cbn [run_list run_op c_res with_s with_res c_s c_r c_num c_evidx]; rewrite ?Hr)).
   rewrite Hs. reflexivity.
 Qed.
 
@@ -153,3 +163,56 @@ Example ctl_run_example :
   | _ => false
   end = true.
 Proof. vm_compute. reflexivity. Qed.
+
+(* enable_all touches neither the acknowledged features nor the memory side *)
+Lemma enable_all_keeps n : forall s q b, d_acked (enable_all s n q b) = d_acked s /\ d_mem (enable_all s n q b) = d_mem s.
+Proof.
+  induction n as [|n IH]; intros s q b; cbn [enable_all]; [auto|].
+  destruct (get_ring s q) as [r|]; [|auto].
+  destruct (IH (update_reg (put_ring s q (with_ring r (r_ready r) b (r_kick r) (r_call r)))
+                           (with_ring r (r_ready r) b (r_kick r) (r_call r)) q) (q + 1) b) as [H1 H2].
+  rewrite H1, H2. unfold update_reg, put_ring.
+  destruct (r_kick _); [|auto]. destruct (owner_of _ _ _) as [[t i]|]; [|auto].
+  destruct (ctl_reg_wanted _ _); [destruct (existsb _ _)|]; auto.
+Qed.
+
+Lemma enable_body_ok e q r :
+  c_res e = None ->
+  c_res (run_list run_init [OSetEnabled BTrue; OUpdateReg] (at_ring e q r)) = None
+  /\ c_s (run_list run_init [OSetEnabled BTrue; OUpdateReg] (at_ring e q r))
+     = update_reg (put_ring (c_s e) q (with_ring r (r_ready r) true (r_kick r) (r_call r)))
+                  (with_ring r (r_ready r) true (r_kick r) (r_call r)) q.
+Proof. apply flag_body_ok. reflexivity. Qed.
+
+Lemma run_list_cons i o l e : run_list i (o :: l) e = run_list i l (run_op i o e).
+Proof. reflexivity. Qed.
+Ltac step1 := rewrite run_list_cons;
+              cbn [run_op c_res with_s with_res with_evidx c_s c_q c_r c_num c_evidx cond_of].
+
+Lemma ctl_set_features_eq s q e f v : run_handler_num ctl_set_features s q e f v = h_set_features s v.
+Proof.
+  unfold ctl_set_features, h_set_features, run_handler_num.
+  step1.
+  destruct (N.land v (lnot 64 (d_features s)) =? 0) eqn:E; cbn [negb].
+  2:{ cbn [run_list run_op c_res with_res c_s]. reflexivity. }
+  step1. step1. step1. cbn [d_acked set_misc].
+  destruct (hasd v PFB) eqn:Ep; cbn [negb].
+  - (* the rings are left alone *)
+    step1. step1. step1. step1. step1.
+    cbn [run_list c_s c_res d_acked d_mem d_rings set_misc set_rings set_mem]. reflexivity.
+  - cbn [run_op c_res c_s with_s].
+    match goal with |- context [for_rings ?B ?n 0 ?E] =>
+      change B with (fun e' => run_list run_init [OSetEnabled BTrue; OUpdateReg] e');
+      destruct (for_rings_flag true (fun e' => run_list run_init [OSetEnabled BTrue; OUpdateReg] e') enable_body_ok n 0 E eq_refl) as [Hs Hr];
+      set (E' := for_rings _ n 0 E) in *
+    end.
+    cbn [c_s with_s] in Hs.
+    set (s1 := set_misc s (d_owned s) v (d_acked_proto s) (d_rq_acked s) (d_rq_acked_proto s) (d_fe_avf s) (d_fe_apf s) (d_fe_maxq s)) in *.
+    destruct (enable_all_keeps (d_nq s1) s1 0 true) as [Hk1 Hk2].
+    assert (Ha1 : d_acked s1 = v) by reflexivity.
+    rewrite run_list_cons. cbn [run_op]. rewrite Hr. cbn [with_evidx c_s]. rewrite Hs, Hk1, Ha1.
+    do 4 (rewrite run_list_cons; cbn [run_op c_res with_s with_evidx with_res]; rewrite ?Hr;
+          cbn [with_s with_evidx with_res c_s c_r c_evidx c_res]; rewrite ?Hs).
+    cbn [run_list c_s c_res].
+    cbn [d_acked d_mem d_rings set_rings set_mem]. rewrite Hk1, Hk2, Ha1. reflexivity.
+Qed.
